@@ -139,4 +139,17 @@ theorem created_probeOp (d : Dest) : created (probeOp d) = [] := by
   unfold probeOp
   split <;> rfl
 
+/-- the frames of a run of sends go out in the order given (all indices naming a message) -/
+theorem sendSeq_fst (t : Transport) (tgt : Target) (ms : List Msg) :
+    ∀ order : List Nat, (∀ j ∈ order, j < ms.length) → (sendSeq t tgt ms order).map Prod.fst = order
+  | [], _ => rfl
+  | j :: js, hall => by
+    have hj : j < ms.length := hall j List.mem_cons_self
+    have hjs : ∀ k ∈ js, k < ms.length := fun k hk => hall k (List.mem_cons_of_mem _ hk)
+    have hget : ms[j]? = some ms[j] := List.getElem?_eq_getElem hj
+    have ih := sendSeq_fst t tgt ms js hjs
+    simp only [sendSeq] at ih ⊢
+    simp only [List.filterMap_cons, hget, Option.map_some, List.map_cons, List.cons.injEq, true_and]
+    exact ih
+
 end Asl.Amqp
